@@ -12,6 +12,7 @@ import CBV.Lemmas.C06Repr
 import CBV.Lemmas.C06Lex
 import CBV.Lemmas.C06ReprGen
 import CBV.Lemmas.C06ReprParse
+import CBV.Lemmas.C06ReprSpacing
 import Mathlib.Data.String.Basic
 import CBV.Gen.TC06
 
@@ -495,6 +496,46 @@ example : reprOk false tenth (pyReprChars false tenth) = true :=
 
 example : reprOk false (5224175567749775 / 4503599627370496) (pyReprChars false (5224175567749775 / 4503599627370496)) = true :=
   T_C06_repr_accepted_fixed_partial _ (by norm_num) 116 (-2) (by decide +kernel) (by decide +kernel) (by decide +kernel)
+
+/-- **T_C06_repr_spacing.** binary64 spacing (`10¹⁶ > 2⁵³`): for every positive dyadic `ax` and every `dp` with `10^(dp−1) ≤ ax`
+    (the decimal point position), the correctly rounded 17-digit decimal of `ax` lies in the rounding interval of `ax` — also just
+    below a power of two, where the interval is half as wide. -/
+theorem T_C06_repr_spacing (ax : Rat) (hpos : 0 < ax) (hd : ax.den = 2 ^ Nat.log2 ax.den) (dp : Int)
+    (hdp : pow10R (dp - 1) ≤ ax) :
+    inRound ax (((roundHalfEven (ax * pow10R ((17 : Int) - dp)) : Nat) : Rat) * pow10R (-((17 : Int) - dp))) = true :=
+  candidate17_inRound ax hpos hd dp hdp
+
+/-- **T_C06_repr_accepted_fixed.** For every positive dyadic `x` (every positive double is one) whose decimal point position
+    satisfies its defining inequality `10^(dp−1) ≤ x` (proved for `1 ≤ x`: `decPoint_spec_ge_one`; for `x < 1` it is what the
+    leading-zero count computes), the digit search of `pyRepr` returns a candidate, and if the printed digits fall in Python's
+    fixed-notation range the printed text is accepted by the validator: no "search succeeds" hypothesis any more. -/
+theorem T_C06_repr_accepted_fixed (x : Rat) (hx : 0 < x) (hd : x.den = 2 ^ Nat.log2 x.den)
+    (hdp : pow10R (decPoint (absR x) - 1) ≤ x) :
+    ∃ m e, shortestFrom x (absR x) (decPoint (absR x)) 17 1 = some (m, e) ∧
+      (-4 < ((Nat.toDigits 10 (stripZeros 20 m e).1).length : Int) + (stripZeros 20 m e).2 →
+       ((Nat.toDigits 10 (stripZeros 20 m e).1).length : Int) + (stripZeros 20 m e).2 ≤ 16 →
+       reprOk false x (pyReprChars false x) = true) := by
+  have habs : absR x = x := by unfold absR; simp [not_lt.mpr hx.le]
+  have h17 := candidate17_inRound x hx hd (decPoint (absR x)) hdp
+  obtain ⟨⟨m, e⟩, hr⟩ := shortestFrom_some x (absR x) (decPoint (absR x)) 17 1
+    ⟨17, by omega, by omega, by rw [habs] at h17 ⊢; exact_mod_cast h17⟩
+  exact ⟨m, e, hr, fun h1 h2 => reprOk_pyReprChars_fixed x hx m e hr h1 h2⟩
+
+/-- for `1 ≤ x` nothing but "positive double" is assumed -/
+theorem T_C06_repr_accepted_fixed_ge_one (x : Rat) (hx : 1 ≤ x) (hd : x.den = 2 ^ Nat.log2 x.den) :
+    ∃ m e, shortestFrom x (absR x) (decPoint (absR x)) 17 1 = some (m, e) ∧
+      (-4 < ((Nat.toDigits 10 (stripZeros 20 m e).1).length : Int) + (stripZeros 20 m e).2 →
+       ((Nat.toDigits 10 (stripZeros 20 m e).1).length : Int) + (stripZeros 20 m e).2 ≤ 16 →
+       reprOk false x (pyReprChars false x) = true) := by
+  have hpos : 0 < x := by linarith
+  have habs : absR x = x := by unfold absR; simp [not_lt.mpr hpos.le]
+  exact T_C06_repr_accepted_fixed x hpos hd (by rw [habs]; exact decPoint_spec_ge_one x hx)
+
+/-- the hypotheses are satisfiable: 1.16 (a double ≥ 1) and the double nearest to 0.1 (`10^(dp−1) ≤ x` by evaluation) -/
+example : True := by
+  have _h1 := T_C06_repr_accepted_fixed_ge_one (5224175567749775 / 4503599627370496) (by norm_num) (by decide +kernel)
+  have _h2 := T_C06_repr_accepted_fixed tenth (by unfold tenth; norm_num) (by decide +kernel) (by decide +kernel)
+  trivial
 
 /-- **T_C06_repr_layout_fixed.** Reading the fixed-notation layouts back: for any digits `ds` (value `M`) and decimal point position
     `-4 < dp ≤ 16`, `floatValue (reprLayout ds dp) = M · 10^(dp − |ds|)`. -/
